@@ -13,6 +13,9 @@ mod p05;
 mod p06;
 mod p07;
 mod p08;
+mod p09;
+mod p10;
+mod p11;
 mod csg;
 
 use engine::*;
@@ -29,6 +32,9 @@ macro_rules! for_prop {
             "C06" => $f::<p06::P>($($arg),*),
             "C07" => $f::<p07::P>($($arg),*),
             "C08" => $f::<p08::P>($($arg),*),
+            "C09" => $f::<p09::P>($($arg),*),
+            "C10" => $f::<p10::P>($($arg),*),
+            "C11" => $f::<p11::P>($($arg),*),
             other => {
                 eprintln!("unknown property {other}");
                 std::process::exit(2)
